@@ -4,7 +4,7 @@
    A reader of the exposition format ([prom_parse]) is defined here; the JSON
    reader is Base.Json.json_parse. *)
 From Coq Require Import List NArith Bool.
-From RV Require Export Base.Json C22.Model.
+From RV Require Export Base.Json Base.ByteNames C22.Model.
 Import ListNotations.
 Local Open Scope N_scope.
 
@@ -41,7 +41,7 @@ Definition label_name_okb (n : list N) : bool :=
   match n with c :: _ => is_alpha c && forallb is_label_char n | [] => false end.
 
 (* sample values: a decimal number (the JSON number grammar) or NaN *)
-Definition value_okb (v : list N) : bool := num_okb v || list_eqb v [78; 97; 78].
+Definition value_okb (v : list N) : bool := (num_okb v && forallb is_num_char v) || list_eqb v [78; 97; 78].
 
 Fixpoint strip_prefix (p l : list N) : option (list N) :=
   match p with
